@@ -39,4 +39,11 @@ def showEvent (e : Event) : String := s!"{e.type}.{e.param}.{e.on}.{e.off}"
 def showEvents (l : List Event) : String :=
   if l.isEmpty then "-" else ",".intercalate (l.map showEvent)
 
+/-- the answer of the `optx` / `convox` model streams: the list-based model of the optimiser
+(`Model/Optimizer.lean`) is quartic in the number of events of a run of equal phrases (300 equal
+notes: 6 s, 511: 25 s, 1000: more than 15 min); the checks send such songs under these command names,
+the model does not answer and the case is decided by the spec oracle on the implementation's answer
+alone (`agree` in checks/c01.py, checks/c02.py) -/
+def optModelDeclines : String := "MODEL:size-limit"
+
 end Driver
